@@ -184,6 +184,23 @@ Theorem C03_diskdump_page_in_bounds : forall alim f flen ps flags size off,
 Proof. exact (fun alim f flen ps flags size off => proj1 (dd_page_good alim f flen ps flags size off)). Qed.
 Print Assumptions C03_diskdump_page_in_bounds.
 
+(** the size of a raw page is checked against the *current* page size, which
+    is the size of the cache slot it is copied into (the page size can change
+    after the header: VMCOREINFO PAGESIZE), and a decompressor is given that
+    size as its capacity *)
+Theorem C03_diskdump_raw_page_fits_slot : forall alim f flen ps flags size off a,
+  dd_page alim f flen ps flags size off = Ok a ->
+  match a with DdRaw => size = ps | DdDecompress _ cap => cap = ps end.
+Proof. exact dd_page_fits_slot. Qed.
+Print Assumptions C03_diskdump_raw_page_fits_slot.
+
+(** ... whereas a check against the header's block size lets a 4096-byte raw
+    page into a 512-byte slot (seeded change C03-c3) *)
+Theorem C03_diskdump_raw_page_block_size_refuted :
+  dd_page_gen 1073741824 (fun _ => 0) 8192 4096 512 0 4096 0 = OOB.
+Proof. exact dd_page_block_size_refuted. Qed.
+Print Assumptions C03_diskdump_raw_page_block_size_refuted.
+
 (** ** (f) LKCD [dp_size] against the per-context buffer, composed with RLE *)
 Theorem C03_lkcd_page_in_bounds : forall f ps comp dp_size dp_flags off,
   is_ub (lkcd_page true f ps comp dp_size dp_flags off) = false /\
